@@ -14,6 +14,9 @@ variable with a usage mark — true of every model produced from a source text b
 -/
 import Rooc.Proofs.RefLemmas
 import Rooc.Proofs.RatInst
+import Rooc.Proofs.Compose
+import Rooc.Proofs.ComposeExamples
+import Rooc.Proofs.ComposeE2EExamples
 namespace Rooc.Props.C03
 open Rooc Rooc.Sem Rooc.Ref Rooc.Exp
 
@@ -337,5 +340,278 @@ example : assignments exInf.domain =
   rw [fieldExact_rat]; decide +kernel
 
 end examples
+
+/-! ## The composition: a solver answer on the COMPILED model is an answer for the SOURCE
+
+`Compile.linearize m tol maxSteps` is the whole of `Linearizer::linearize` (normalise → bound inference → enforceable
+→ apply_to_domain → lowering).  C01 (`c01_compile_partial`) and C02 (`c02_compile_partial`) say what its output `lm`
+means; here they are composed with an ABSTRACT solver contract (`Rooc/Proofs/ComposeContract.lean`; composition lemmas in
+`Rooc/Proofs/Compose.lean`):
+
+* `LinOptimal lm ρ'` — `ρ'` satisfies every row and domain of `lm` and no such point has a strictly better linear
+  objective (`Sem.linObjective`, offset included; `Ref.better`);
+* `LinInfeasible lm` — no assignment satisfies `lm`;   * `LinUnbounded lm` — feasible points beyond every bound.
+
+These contracts are the ONLY assumption about the solver (they are what C05's certified comparison validates per
+instance for microlp / Clarabel, and what `slow_simplex_optimal_exact` in `Props/C05.lean` proves for the built-in
+simplex at exact arithmetic).  Nothing is assumed about HOW a solver finds its answer.
+
+`_partial`: the theorems inherit the region of C01/C02's end-to-end statements — `FragModel true m m.domain`
+(piecewise-linear objective and comparisons over declared, used variables, defined everywhere; no logic values or
+bare assertions), `DeclOK m.domain` (decidable well-formedness of the declarations) and a tolerance `0 ≤ t < 1` (or no
+`IntegerRange` variable at all) — since fix b9d407a the integer ranges `apply_to_domain` publishes stay inside the box
+the lowering prunes with (`Rooc.LinP.enforceable_int_ranges_in_box`).  The excluded region is witnessed by
+`Rooc.Props.C01.c01_defined_counterexample` (definedness) and, for what the unrounded integer box allowed before the
+repair, `Rooc.Props.C01.c01_int_tolerance_counterexample`. -/
+section Composition
+open Rooc.LinP Rooc.Compose
+
+/-- what C01 + C02 establish, as one fact (`Compose.CompilesTo`: direction kept, source objective defined
+everywhere, feasible sets related by auxiliary extension, linear objective bounded by and attaining the source
+objective over the extensions). -/
+theorem c03_compilesTo_partial {m : Model (Ext K)} {t : K} (ht : 0 ≤ t) {maxSteps : Nat} {lm : LinModel (Ext K)}
+    (h : Compile.linearize m (.fin t) maxSteps = .ok lm)
+    (hm : FragModel true m m.domain) (hok : DeclOK m.domain)
+    (ht1 : t < 1 ∨ NoIntegerVars m.domain) :
+    CompilesTo m lm :=
+  compilesTo_of_compile ht h hm hok ht1
+
+/-- **the solver's optimum of the compiled model, read on the declared variables, is an optimum of the source with
+the same value**: `ρ'` itself (auxiliaries are simply extra names) satisfies the source model, the source objective
+at `ρ'` IS the linear objective at `ρ'` (offset included), and no assignment satisfying the source has a strictly
+better objective. -/
+theorem c03_compile_optimal_partial {m : Model (Ext K)} {t : K} (ht : 0 ≤ t) {maxSteps : Nat} {lm : LinModel (Ext K)}
+    (h : Compile.linearize m (.fin t) maxSteps = .ok lm)
+    (hm : FragModel true m m.domain) (hok : DeclOK m.domain)
+    (ht1 : t < 1 ∨ NoIntegerVars m.domain)
+    {ρ' : String → K} (ho : LinOptimal lm ρ') :
+    srcFeasible m ρ' = true ∧ eval ρ' m.objective = linObjective lm ρ' ∧ (eval ρ' m.objective).isSome = true ∧
+    ∀ ρ : String → K, srcFeasible m ρ = true → ∀ u v, eval ρ m.objective = some u →
+      eval ρ' m.objective = some v → better m.optType u v = false := by
+  obtain ⟨v, hopt, hw⟩ := optimal_transfer (compilesTo_of_compile ht h hm hok ht1) ho
+  refine ⟨hopt.feasible, by rw [hopt.value, hw], by rw [hopt.value]; rfl, ?_⟩
+  intro ρ hs u v' hu hv'
+  rw [hopt.value] at hv'; cases hv'
+  exact hopt.best ρ hs u hu
+
+/-- conversely **every optimum of the source extends, on the compiler's auxiliaries only, to a point satisfying the
+solver contract, with the same value** — so `LinOptimal` is satisfiable exactly when the source has an optimum, and
+a solver that answers `LinOptimal` cannot report a value different from the source optimum. -/
+theorem c03_compile_optimal_complete_partial {m : Model (Ext K)} {t : K} (ht : 0 ≤ t) {maxSteps : Nat}
+    {lm : LinModel (Ext K)} (h : Compile.linearize m (.fin t) maxSteps = .ok lm)
+    (hm : FragModel true m m.domain) (hok : DeclOK m.domain)
+    (ht1 : t < 1 ∨ NoIntegerVars m.domain)
+    {ρ : String → K} {v : K} (hs : srcFeasible m ρ = true) (hv : eval ρ m.objective = some v)
+    (hbest : ∀ ρ₂ : String → K, srcFeasible m ρ₂ = true → ∀ u, eval ρ₂ m.objective = some u →
+      better m.optType u v = false) :
+    ∃ ρ' : String → K, (∀ x, inScope m.domain x → ρ' x = ρ x) ∧ LinOptimal lm ρ' ∧ linObjective lm ρ' = some v :=
+  optimal_complete (compilesTo_of_compile ht h hm hok ht1) ⟨hs, hv, hbest⟩
+
+/-- **`infeasible` is right in both directions**: the compiled model has no point iff NO assignment satisfies the
+source. -/
+theorem c03_compile_infeasible_partial {m : Model (Ext K)} {t : K} (ht : 0 ≤ t) {maxSteps : Nat} {lm : LinModel (Ext K)}
+    (h : Compile.linearize m (.fin t) maxSteps = .ok lm)
+    (hm : FragModel true m m.domain) (hok : DeclOK m.domain)
+    (ht1 : t < 1 ∨ NoIntegerVars m.domain) :
+    LinInfeasible lm ↔ ∀ ρ : String → K, srcFeasible m ρ = false :=
+  infeasible_iff (compilesTo_of_compile ht h hm hok ht1)
+
+/-- **`unbounded` is right in both directions**: the compiled model has points with linear objective beyond every
+bound (in the model's direction) iff the source has satisfying assignments with objective beyond every bound. -/
+theorem c03_compile_unbounded_partial {m : Model (Ext K)} {t : K} (ht : 0 ≤ t) {maxSteps : Nat} {lm : LinModel (Ext K)}
+    (h : Compile.linearize m (.fin t) maxSteps = .ok lm)
+    (hm : FragModel true m m.domain) (hok : DeclOK m.domain)
+    (ht1 : t < 1 ∨ NoIntegerVars m.domain) :
+    LinUnbounded lm ↔ SrcUnbounded m :=
+  unbounded_iff (compilesTo_of_compile ht h hm hok ht1)
+
+/-- the reference side needs `Closed m`; on the fragment it is not an extra hypothesis. -/
+theorem c03_closed_of_fragment {m : Model (Ext K)} (hm : FragModel true m m.domain) : Closed m = true :=
+  closed_of_fragModel hm
+
+/-! ### link to the reference interpreter (enumerable declarations: Boolean / IntegerRange) -/
+
+/-- **the reference's optimum and the solver's optimum have the same value**: if `refSolve m = optimal v w` and the
+solver returns a point `ρ'` satisfying its contract on the compiled model, the linear objective at `ρ'` is `v`,
+and `ρ'` satisfies the source (the comparison `./check C03` performs per case, as a theorem). -/
+theorem c03_ref_agrees_partial {m : Model (Ext K)} {t : K} (ht : 0 ≤ t) {maxSteps : Nat} {lm : LinModel (Ext K)}
+    (h : Compile.linearize m (.fin t) maxSteps = .ok lm)
+    (hm : FragModel true m m.domain) (hok : DeclOK m.domain)
+    (ht1 : t < 1 ∨ NoIntegerVars m.domain)
+    {v : K} {w : List (String × K)} (hr : refSolve m = .optimal v w) {ρ' : String → K} (ho : LinOptimal lm ρ') :
+    linObjective lm ρ' = some v ∧ srcFeasible m ρ' = true := by
+  obtain ⟨hne, hfw, hvw, hbest⟩ := refSolve_optimal_spec hr
+  obtain ⟨v', hopt, hw⟩ := optimal_transfer (compilesTo_of_compile ht h hm hok ht1) ho
+  have h1 := hbest (closed_of_fragModel hm) ρ' hopt.feasible v' hopt.value
+  have h2 := hopt.best (lookup w) hfw v hvw
+  rw [hw, eq_of_not_better hne h1 h2]
+  exact ⟨rfl, hopt.feasible⟩
+
+/-- the reference's optimum is attained by a point satisfying the solver contract (extension of the reference's
+witness): the hypotheses of `c03_ref_agrees_partial` are never contradictory. -/
+theorem c03_ref_optimal_attained_partial {m : Model (Ext K)} {t : K} (ht : 0 ≤ t) {maxSteps : Nat}
+    {lm : LinModel (Ext K)} (h : Compile.linearize m (.fin t) maxSteps = .ok lm)
+    (hm : FragModel true m m.domain) (hok : DeclOK m.domain)
+    (ht1 : t < 1 ∨ NoIntegerVars m.domain)
+    {v : K} {w : List (String × K)} (hr : refSolve m = .optimal v w) :
+    ∃ ρ' : String → K, (∀ x, inScope m.domain x → ρ' x = lookup w x) ∧ LinOptimal lm ρ' ∧
+      linObjective lm ρ' = some v := by
+  obtain ⟨_, hfw, hvw, hbest⟩ := refSolve_optimal_spec hr
+  exact optimal_complete (compilesTo_of_compile ht h hm hok ht1)
+    ⟨hfw, hvw, fun ρ₂ hs₂ u hu => hbest (closed_of_fragModel hm) ρ₂ hs₂ u hu⟩
+
+/-- **the reference says `infeasible` exactly when the compiled model has no point.** -/
+theorem c03_ref_infeasible_iff_partial {m : Model (Ext K)} {t : K} (ht : 0 ≤ t) {maxSteps : Nat}
+    {lm : LinModel (Ext K)} (h : Compile.linearize m (.fin t) maxSteps = .ok lm)
+    (hm : FragModel true m m.domain) (hok : DeclOK m.domain)
+    (ht1 : t < 1 ∨ NoIntegerVars m.domain)
+    {asg : List (List (String × K))} (ha : assignments m.domain = some asg) :
+    refSolve m = .infeasible ↔ LinInfeasible lm := by
+  rw [refSolve_infeasible_iff ha (closed_of_fragModel hm),
+    infeasible_iff (compilesTo_of_compile ht h hm hok ht1)]
+
+/-- **end to end, verdict by verdict**: on an enumerable model of the fragment, a solver that honours its contract
+on the compiled model — it answers either a point with `LinOptimal` or the verdict `LinInfeasible` — agrees with the
+reference interpreter: `infeasible` ↔ `infeasible`; a point ↔ `optimal v _` with `v` the linear objective at the
+point (`min`/`max`) or `feasibleAny _` (`satisfy`). -/
+theorem c03_answer_matches_reference_partial {m : Model (Ext K)} {t : K} (ht : 0 ≤ t) {maxSteps : Nat}
+    {lm : LinModel (Ext K)} (h : Compile.linearize m (.fin t) maxSteps = .ok lm)
+    (hm : FragModel true m m.domain) (hok : DeclOK m.domain)
+    (ht1 : t < 1 ∨ NoIntegerVars m.domain)
+    {asg : List (List (String × K))} (ha : assignments m.domain = some asg) :
+    (LinInfeasible lm → refSolve m = .infeasible) ∧
+    (∀ ρ' : String → K, LinOptimal lm ρ' →
+      (m.optType ≠ .satisfy → ∃ v w, refSolve m = .optimal v w ∧ linObjective lm ρ' = some v) ∧
+      (m.optType = .satisfy → ∃ w, refSolve m = .feasibleAny w)) := by
+  have hc := compilesTo_of_compile ht h hm hok ht1
+  have hcl := closed_of_fragModel hm
+  refine ⟨fun hi => (c03_ref_infeasible_iff_partial ht h hm hok ht1 ha).mpr hi, fun ρ' ho => ⟨?_, ?_⟩⟩
+  · intro hne
+    obtain ⟨v, w, hr⟩ := refSolve_optimal_complete ha hcl hne (src_of_lin hc ho.feasible)
+      (fun ρ₂ _ => by obtain ⟨u, hu⟩ := hc.objDefined ρ₂; rw [hu]; rfl)
+    exact ⟨v, w, hr, (c03_ref_agrees_partial ht h hm hok ht1 hr ho).1⟩
+  · intro hsat
+    exact refSolve_feasibleAny_complete ha hcl hsat (src_of_lin hc ho.feasible)
+
+/-! ### non-vacuity: `min x s.t. x ≤ y`, `x, y` Boolean, through the whole pipeline (every tolerance, every step
+limit), judged by the reference at `K = ℚ` -/
+section examples
+attribute [local instance 2000] fieldExact
+
+/-- every hypothesis of the composition theorems holds for `Compose.exBool`, for every tolerance `t ≥ 0` and every
+step limit: it compiles, lies in the fragment, has well-formed declarations and no `IntegerRange` variable; and a
+point satisfying the solver contract EXISTS (obtained from the source optimum `x = y = 0` by
+`c03_compile_optimal_complete_partial`), with linear objective 0. -/
+example (t : ℚ) (ht : 0 ≤ t) (n : Nat) : ∃ (lm : LinModel (Ext ℚ)) (ρ' : String → ℚ),
+    Compile.linearize (exBool : Model (Ext ℚ)) (.fin t) n = .ok lm ∧ FragModel true exBool (exBool : Model (Ext ℚ)).domain ∧
+    DeclOK (exBool : Model (Ext ℚ)).domain ∧ NoIntegerVars (exBool : Model (Ext ℚ)).domain ∧
+    LinOptimal lm ρ' ∧ linObjective lm ρ' = some 0 := by
+  obtain ⟨lm, h⟩ := exBool_compile (K := ℚ) (.fin t) n
+  obtain ⟨ρ', _, ho, hv⟩ := c03_compile_optimal_complete_partial ht h exBool_frag exBool_declOK
+    (Or.inr exBool_noInt) (ρ := fun _ => 0) (v := 0)
+    exBool_srcOptimal.feasible exBool_srcOptimal.value exBool_srcOptimal.best
+  exact ⟨lm, ρ', h, exBool_frag, exBool_declOK, exBool_noInt, ho, hv⟩
+
+/-- the reference's verdict on the same model, computed by the kernel. -/
+example : refSolve (exBool : Model (Ext ℚ)) = .optimal 0 [("x", 0), ("y", 0)] := by
+  rw [fieldExact_rat]; decide +kernel
+
+/-- `c03_ref_agrees_partial` applies: whatever point a contract-honouring solver returns on the compiled `exBool`,
+its linear objective is the reference's optimum 0 and the point satisfies the source. -/
+example (t : ℚ) (ht : 0 ≤ t) (n : Nat) {lm : LinModel (Ext ℚ)}
+    (h : Compile.linearize (exBool : Model (Ext ℚ)) (.fin t) n = .ok lm) {ρ' : String → ℚ} (ho : LinOptimal lm ρ') :
+    linObjective lm ρ' = some 0 ∧ srcFeasible (exBool : Model (Ext ℚ)) ρ' = true :=
+  c03_ref_agrees_partial ht h exBool_frag exBool_declOK (Or.inr exBool_noInt)
+    (v := 0) (w := [("x", 0), ("y", 0)]) (by rw [fieldExact_rat]; decide +kernel) ho
+
+/-- `c03_compile_infeasible_partial` is not vacuous in the other direction either: the compiled `exBool` is NOT
+infeasible. -/
+example (t : ℚ) (ht : 0 ≤ t) (n : Nat) {lm : LinModel (Ext ℚ)}
+    (h : Compile.linearize (exBool : Model (Ext ℚ)) (.fin t) n = .ok lm) : ¬ LinInfeasible lm := by
+  intro hi
+  have := (c03_compile_infeasible_partial ht h exBool_frag exBool_declOK
+    (Or.inr exBool_noInt)).mp hi (fun _ => 0)
+  rw [exBool_srcOptimal.feasible] at this
+  cases this
+
+end examples
+
+/-! ### the chain closed for rooc's own simplex: source model → `Compile.linearize` → `to_standard_form` →
+tableau loop → mapped-back point
+
+For the built-in simplex at exact arithmetic the solver contract is not an assumption: `Rooc.Props.C05.
+slow_simplex_linOptimal_exact` / `slow_simplex_linUnbounded_exact` (C13 ∘ C14 through the by-name/positional adapter
+`Rooc/Proofs/ComposeSem.lean`) prove it.  Composed with the theorems above this gives an end-to-end statement about
+the SOURCE model.  Hypotheses on the compiled model `lm` (all decidable on the computed `lm`; their discharge from
+C08's well-formedness theorems for continuous sources is planned): `StdSem.WF lm`, distinct names, `DomVars`, `NNOK`;
+and the interface `CanonicalFor T (stdK s)` (provided by `slow_simplex_direct_start_partial` for the direct start). -/
+section EndToEnd
+open Tableau TabSem StdSem StdMain Standardize ComposeSimplex ComposeSem
+attribute [local instance] exactArith
+
+/-- **source optimum from the built-in simplex, exact arithmetic.**  If the loop stops `Finished` on a canonical
+feasible tableau of the standard form of the compiled model, the by-name point it returns satisfies the SOURCE model,
+`optimal_value` is the source objective there, and no assignment satisfying the source is strictly better. -/
+theorem c03_slow_simplex_end_to_end_partial {m : Model (Ext K)} {t : K} (ht : 0 ≤ t) {maxSteps : Nat}
+    {lm : LinModel (Ext K)} (h : Compile.linearize m (.fin t) maxSteps = .ok lm)
+    (hm : FragModel true m m.domain) (hok : DeclOK m.domain)
+    (ht1 : t < 1 ∨ NoIntegerVars m.domain)
+    (hW : WF lm) (hnn : ∀ d ∈ lm.domain, ComposeSem.NNOK d.ty) (hdv : DomVars lm) (hnd : lm.vars.Nodup)
+    {s : StdModel (Ext K)} (hs : standardize lm = .ok s) {T : Tab K} (hT : CanonicalFor T (stdK s))
+    (stallExtra limit : Nat) (prefer : List Nat)
+    (hfin : (solve (0:K) stallExtra limit prefer T).result = .ok ()) :
+    srcFeasible m (pointOf lm.vars (preimage lm (basicSolution (solve (0:K) stallExtra limit prefer T).final))) = true ∧
+    eval (pointOf lm.vars (preimage lm (basicSolution (solve (0:K) stallExtra limit prefer T).final))) m.objective =
+      some (optimalValue (solve (0:K) stallExtra limit prefer T).final) ∧
+    ∀ ρ : String → K, srcFeasible m ρ = true → ∀ u, eval ρ m.objective = some u →
+      better m.optType u (optimalValue (solve (0:K) stallExtra limit prefer T).final) = false := by
+  obtain ⟨ho, hv⟩ := simplex_linOptimal hW hnn hdv hnd hs hT stallExtra limit prefer hfin
+  obtain ⟨hs', he, _, hbest⟩ := c03_compile_optimal_partial ht h hm hok ht1 ho
+  rw [hv] at he
+  exact ⟨hs', he, fun ρ hρ u hu => hbest ρ hρ u _ hu he⟩
+
+/-- **source unboundedness from the built-in simplex, exact arithmetic.** -/
+theorem c03_slow_simplex_unbounded_end_to_end_partial {m : Model (Ext K)} {t : K} (ht : 0 ≤ t) {maxSteps : Nat}
+    {lm : LinModel (Ext K)} (h : Compile.linearize m (.fin t) maxSteps = .ok lm)
+    (hm : FragModel true m m.domain) (hok : DeclOK m.domain)
+    (ht1 : t < 1 ∨ NoIntegerVars m.domain)
+    (hW : WF lm) (hnn : ∀ d ∈ lm.domain, ComposeSem.NNOK d.ty) (hdv : DomVars lm) (hnd : lm.vars.Nodup)
+    {s : StdModel (Ext K)} (hs : standardize lm = .ok s) {T : Tab K} (hT : CanonicalFor T (stdK s))
+    (stallExtra limit : Nat) (prefer : List Nat)
+    (hunb : (solve (0:K) stallExtra limit prefer T).result = .error .unbounded) : SrcUnbounded m :=
+  (c03_compile_unbounded_partial ht h hm hok ht1).mp
+    (simplex_linUnbounded hW hnn hdv hnd hs hT stallExtra limit prefer hunb)
+
+/-- **source infeasibility from the built-in simplex, exact arithmetic**: a phase-1 optimum below zero on the standard
+form of the compiled model means that NO assignment satisfies the source. -/
+theorem c03_slow_simplex_infeasible_end_to_end_partial {m : Model (Ext K)} {t : K} (ht : 0 ≤ t) {maxSteps : Nat}
+    {lm : LinModel (Ext K)} (h : Compile.linearize m (.fin t) maxSteps = .ok lm)
+    (hm : FragModel true m m.domain) (hok : DeclOK m.domain)
+    (ht1 : t < 1 ∨ NoIntegerVars m.domain)
+    (hW : WF lm) (hnn : ∀ d ∈ lm.domain, ComposeSem.NNOK d.ty) (hdv : DomVars lm)
+    {s : StdModel (Ext K)} (hs : standardize lm = .ok s) (stallExtra limit : Nat) (prefer : List Nat)
+    (hp1 : (solve (0:K) stallExtra limit prefer (phase1Tab (stdK s))).result = .ok ())
+    (hneg : (solve (0:K) stallExtra limit prefer (phase1Tab (stdK s))).final.value < 0) :
+    ∀ ρ : String → K, srcFeasible m ρ = false :=
+  (c03_compile_infeasible_partial ht h hm hok ht1).mp
+    (simplex_linInfeasible hW hnn hdv hs stallExtra limit prefer hp1 hneg)
+
+/-- non-vacuity (`K = ℚ`, every tolerance `t ≥ 0`, step limit 0): `max x s.t. c: x ≤ 2`, `x` NonNegativeReal.  Every
+hypothesis of `c03_slow_simplex_end_to_end_partial` holds JOINTLY — the pipeline returns `exMax`, its standard form is
+`exMaxStd`, `exTM` is canonical for it, the loop stops `Finished` — and the conclusion reads: `x = 2` satisfies the
+source, the source objective there is the reported value 2, no satisfying assignment has a larger objective. -/
+example (t : ℚ) (ht : 0 ≤ t) :
+    srcFeasible exSrc (pointOf ["x"] [2]) = true ∧ eval (pointOf ["x"] [2]) exSrc.objective = some 2 ∧
+    ∀ ρ : String → ℚ, srcFeasible exSrc ρ = true → ∀ u, eval ρ exSrc.objective = some u → u ≤ 2 := by
+  have h := c03_slow_simplex_end_to_end_partial ht (exSrc_compile (.fin t)) exSrc_frag exSrc_declOK
+    (Or.inr exSrc_noInt) exMax_wf exMax_nnok exMax_domVars exMax_nodup exMax_std
+    exTM_canonicalFor 1 10 [] exTM_solve.1
+  rw [exTM_solve.2, exTM'_preimage, exTM'_value] at h
+  refine ⟨h.1, h.2.1, fun ρ hρ u hu => ?_⟩
+  have := h.2.2 ρ hρ u hu
+  simpa [exSrc, better_max] using this
+
+end EndToEnd
+end Composition
 
 end Rooc.Props.C03
